@@ -241,6 +241,19 @@ func C16(c *Ctx) {
 		StalePS:    "F02-stale-pred-pos",
 	}
 	c.ModelCheck(cfg)
+	// the same with inputs that are not valid UTF-8: the encoding errors recorded on the way do not
+	// displace the budget error
+	icfg := *cfg
+	icfg.Invalid = true
+	icfg.NGrammars = c.N(25, 250)
+	icfg.OptSets = nil
+	for _, n := range []uint64{2, 5, 13, 40, 400} {
+		icfg.OptSets = append(icfg.OptSets, OptSet{Name: fmt.Sprintf("max=%d", n), MaxExpr: n})
+		if n == 13 {
+			icfg.OptSets = append(icfg.OptSets, OptSet{Name: "max=13,allowinvalid", MaxExpr: n, AllowInvalid: true})
+		}
+	}
+	c.ModelCheck(&icfg)
 	c.c16B()
 }
 
